@@ -73,22 +73,32 @@ ServeAll(acc) ==
                                 deferred |-> IF S.conn[x].closed THEN acc.deferred ELSE Append(acc.deferred, [c |-> x, r |-> res.r]),
                                 dv |-> acc.dv \cup res.dv \cup (IF S.conn[x].closed THEN {"D_CLOSED_BLOCKED_CLIENT_STILL_CONSUMES"} ELSE {})])
 
-\* the waiters the emulator wakes for command cmd (key -> number of wake-ups)
-EmuWake(nm, a, r) ==
+\* the waiters the emulator wakes for a command (key -> number of wake-ups): one per element by which a list of
+\* database 0 has grown (pushes; since the repair of KF-C11-02 also RENAME / COPY / RESTORE / SORT STORE)
+ListLen(d, k) == IF k \in DOMAIN d /\ d[k].ty = "list" THEN Len(d[k].l) ELSE 0
+EmuWake(S0, S1) ==
+    LET grown == {k \in DOMAIN S1.dbs[0] : ListLen(S1.dbs[0], k) > ListLen(S0.dbs[0], k)}
+    IN  [k \in grown |-> ListLen(S1.dbs[0], k) - ListLen(S0.dbs[0], k)]
+\* the waiters the emulator woke before that repair: only the push family
+EmuWakeOld(nm, a, r) ==
     CASE nm \in {"LPUSH", "RPUSH", "LPUSHX", "RPUSHX"} /\ Len(a) >= 2 /\ r.t = "int" -> (a[1] :> Len(a) - 1)
       [] nm \in {"LMOVE", "RPOPLPUSH", "BLMOVE", "BRPOPLPUSH"} /\ Len(a) >= 2 /\ r.t = "bulk" -> (a[2] :> 1)
       [] OTHER -> <<>>
 Finish(S0, S, r, dv, deferred, nm) ==
     LET sv == ServeAll([S |-> S, deferred |-> deferred, dv |-> dv, wake |-> <<>>, all |-> TRUE])
     IN  BRes(Flag(S0, sv.S, nm), r, sv.dv, sv.deferred)
-\* as Finish, for a command with arguments a and reply r: under the "what the code does" reading only the
-\* push family wakes waiters; where that differs from the ideal outcome the step is tagged
+\* as Finish, for a command with arguments a and reply r.  Ideal: every waiter that can be served is served, longest
+\* waiter first.  The emulator hands out one wake-up per new element to the head of the key's queue: a woken waiter
+\* that cannot take the element (its destination is not a list) does not pass the wake-up on, and one wake-up is
+\* all a waiter gets even if it could take more - where that differs from the ideal outcome the step is tagged.
 FinishCmd(S0, S, r, dv, nm, a) ==
     LET ideal == ServeAll([S |-> S, deferred |-> <<>>, dv |-> dv, wake |-> <<>>, all |-> TRUE])
-        emu == ServeAll([S |-> S, deferred |-> <<>>, dv |-> dv, wake |-> EmuWake(nm, a, r), all |-> FALSE])
-        useEmu == On("D_ONLY_PUSH_COMMANDS_WAKE_BLOCKED_CLIENTS") /\ (emu.S # ideal.S \/ emu.deferred # ideal.deferred)
+        old == On("D_ONLY_PUSH_COMMANDS_WAKE_BLOCKED_CLIENTS")
+        emu == ServeAll([S |-> S, deferred |-> <<>>, dv |-> dv, wake |-> IF old THEN EmuWakeOld(nm, a, r) ELSE EmuWake(S0, S), all |-> FALSE])
+        dev == IF old THEN "D_ONLY_PUSH_COMMANDS_WAKE_BLOCKED_CLIENTS" ELSE "D_ONE_WAKEUP_PER_ELEMENT_NOT_PASSED_ON"
+        useEmu == On(dev) /\ (emu.S # ideal.S \/ emu.deferred # ideal.deferred)
         sv == IF useEmu THEN emu ELSE ideal
-    IN  BRes(Flag(S0, sv.S, nm), r, sv.dv \cup (IF useEmu THEN {"D_ONLY_PUSH_COMMANDS_WAKE_BLOCKED_CLIENTS"} ELSE {}), sv.deferred)
+    IN  BRes(Flag(S0, sv.S, nm), r, sv.dv \cup (IF useEmu THEN {dev} ELSE {}), sv.deferred)
 
 \* the reply that ends a block without an element
 EndReply(mode) == IF mode = "error" THEN RErr("UNBLOCKED") ELSE RNil
